@@ -29,6 +29,8 @@ Init == x1 = <<>> /\ x2 = <<>> /\ sc = 0 /\ l = 1
 Ev(op) == l <= Len(Trace) /\ Trace[l].op = op /\ l' = l + 1
 
 Sg(x) == [s |-> x.s, m |-> x.m]
+RECURSIVE MaxD(_,_,_)
+MaxD(a, b, i) == IF i = 0 THEN <<>> ELSE LET m == MaxD(a, b, i - 1)  d == SSub(a[i], b[i]).m IN IF Cmp(d, m) > 0 THEN d ELSE m
 RECURSIVE SumS(_,_), SumQ(_,_), MaxA(_,_)
 SumS(s, i) == IF i = 0 THEN SZero ELSE SAdd(s[i], SumS(s, i - 1))
 SumQ(s, i) == IF i = 0 THEN SZero ELSE SAdd(SMul(s[i], s[i]), SumQ(s, i - 1))
@@ -116,7 +118,11 @@ Test == /\ Ev("Test") /\ UNCHANGED <<x1, x2, sc>>
            IN /\ e.intact = 1
               /\ CASE e.kind = "pooled" -> Judge(Pooled(a, b), e, Len(a), Len(b), maxabs)
                    [] e.kind = "welch"  -> Judge(Welch(a, b), e, Len(a), Len(b), maxabs)
-                   [] e.kind = "paired" -> Judge(Paired(a, b, mu), e, Len(a), Len(b), Add(maxabs, maxabs))
+                   \* paired: the differences are formed first (exactly, on this lattice), so the rounding allowance is relative
+                   \* to the largest |difference| and |mu|, not to the raw values - two samples of 2^40 that track each other
+                   \* at a distance of 2^20 leave no room for a statistic built from the two means
+                   [] e.kind = "paired" -> Judge(Paired(a, b, mu), e, Len(a), Len(b),
+                                                 IF Len(a) = Len(b) THEN Add(MaxD(a, b, Len(a)), e.mu.m) ELSE Add(maxabs, maxabs))
                    [] e.kind = "one"    -> Judge(One(a, mu), e, Len(a), 0, maxabs)
 MeanCI == /\ Ev("MeanCI") /\ UNCHANGED <<x1, x2, sc>>
           /\ LET e == Trace[l]
@@ -134,7 +140,12 @@ MeanCI == /\ Ev("MeanCI") /\ UNCHANGED <<x1, x2, sc>>
                                        v == VarR(s)
                                    IN /\ RLe(Zero, w)
                                       /\ RNear(RMul(RatI(1, 2), RAdd(hi, lo)), mean, RAdd(ma, w), 40)       \* symmetric about the mean
-                                      /\ RClose(RMul(RSq(w), IntR(n)), RMul(DyRat(DySq(e.tq.d)), v), Zero, 24) \* w = tq s / sqrt(n)
+                                      \* w = tq s / sqrt(n), to 2^-25 relative and to the spacing of the floats that hold the two
+                                      \* bounds (2^-48 of max|x|: at a tiny level the half-width is a few units on a mean of 3e9)
+                                      /\ LET d == RAdd(RShr(w, 25), RShr(ma, 48))
+                                             t == RMul(DyRat(DySq(e.tq.d)), v)
+                                             low == IF RLt(d, w) THEN RMul(RSq(RSub(w, d)), IntR(n)) ELSE Zero
+                                         IN RLe(low, t) /\ RLe(t, RMul(RSq(RAdd(w, d)), IntR(n)))
 Next == Reset \/ Push \/ Test \/ MeanCI
 Spec == Init /\ [][Next]_vars
 Accepted == TLCGet("stats").diameter - 1 = Len(Trace)
